@@ -21,6 +21,7 @@ great-circle distance is ≤ 9.629 m (≤ 6.251 m below 86.535° of latitude).  
 -/
 import Rs1090.Proofs.CprGlobalSpec
 import Rs1090.Proofs.CprMetres
+import Rs1090.Proofs.CprFloat
 namespace Rs1090.Props.C04
 open Rs1090 Rs1090.Model.Cpr Rs1090.Spec.Cpr Rs1090.Proofs.Cpr
 
@@ -262,6 +263,130 @@ theorem global_within_10m (lat lon : ℚ) (hlat : -90 ≤ lat ∧ lat ≤ 90)
   obtain ⟨h1, h2⟩ := global_correct lat lon hlat hnl
   exact ⟨_, _, h1, h2, (recovered_within_10m 1 le_rfl lat lon hlat).2.1,
     (recovered_within_10m 0 (by norm_num) lat lon hlat).2.1, by norm_num⟩
+
+/-! ### the f64 argument, as theorems (no model of IEEE rounding)
+
+`airborne_position` computes in `f64`, the theorems above are about exact rationals.  `Proofs/CprFloat.lean`:
+`F64Exact q` — `q` is a finite binary64 value (`q = m·2^e`, `|m| < 2^53`, `-1074 ≤ e ≤ 971`); `Rounding fl` —
+the standard model of rounding as a HYPOTHESIS on an abstract `fl : ℚ → ℚ` (identity on `F64Exact` values,
+monotone, `|fl x − x| ≤ |x|·2⁻⁵³ + 2⁻¹⁰⁷⁵` for `|x| ≤ 2^1023`); `fJ fl`, `fModulo fl`, `fLatE fl`, `fLatO fl`,
+`fM fl`, `fLon0 fl`, … — the Rust expressions of cpr.rs l.214-301 one by one, with `fl` after EVERY operation.
+Theorems named `…_f64exact` need no hypothesis on `fl` beyond what they state: they say which intermediate
+values ARE binary64 values, for ALL 17-bit fields and ALL `nl ∈ 1..59`.  The real instance of `fl`
+(IEEE-754 round-to-nearest) is trusted, not modelled; `rounding_satisfiable` shows the hypothesis is consistent. -/
+
+open Rs1090.Proofs.CprFloat (F64Exact Rounding fJ fModulo fLatE fLatO fLatO0 fM fLon0 fWrap180 gMn gLon0 gLatO0)
+
+/-- the rounding hypothesis is satisfiable (`fl = id`; the intended instance is IEEE round-to-nearest) -/
+theorem rounding_satisfiable : Rounding id := Proofs.CprFloat.rounding_id
+
+/-- l.253-256 `f64::from(x) / CPR_MAX`: a binary64 value for every 17-bit field -/
+theorem cpr_f64exact (n : ℕ) (hn : n < 131072) : F64Exact ((n : ℚ) / 131072) :=
+  Proofs.CprFloat.cpr_f64exact n hn
+
+/-- l.258 `floor(59.0 * cpr_lat_even - 60.0 * cpr_lat_odd + 0.5)`: both products, the difference, the sum and
+    the floor are binary64 values; `-60 ≤ j ≤ 59` -/
+theorem j_f64exact (a b : ℕ) (ha : a < 131072) (hb : b < 131072) :
+    F64Exact (59 * ((a : ℚ) / 131072)) ∧ F64Exact (60 * ((b : ℚ) / 131072)) ∧
+    F64Exact (59 * ((a : ℚ) / 131072) - 60 * ((b : ℚ) / 131072)) ∧
+    F64Exact (59 * ((a : ℚ) / 131072) - 60 * ((b : ℚ) / 131072) + 1 / 2) ∧
+    (-60 ≤ ⌊59 * ((a : ℚ) / 131072) - 60 * ((b : ℚ) / 131072) + 1 / 2⌋ ∧
+      ⌊59 * ((a : ℚ) / 131072) - 60 * ((b : ℚ) / 131072) + 1 / 2⌋ ≤ 59) ∧
+    F64Exact ((⌊59 * ((a : ℚ) / 131072) - 60 * ((b : ℚ) / 131072) + 1 / 2⌋ : ℤ) : ℚ) :=
+  Proofs.CprFloat.j_f64exact a b ha hb
+
+/-- l.218-220 `a - b * floor(a / b)` on integers `|j| ≤ 60`, `1 ≤ n ≤ 60` (covers `j mod 60`, `j mod 59`,
+    `m mod ni`): the quotient `j / n` is in general NOT a binary64 value, but under the rounding hypothesis the
+    floor of its rounding is the exact floor; `n·⌊j/n⌋` and `j − n·⌊j/n⌋` are binary64 values; the computed
+    result is `j mod n`. -/
+theorem modulo_f64exact {fl : ℚ → ℚ} (R : Rounding fl) (j : ℤ) (n : ℕ) (hj : |j| ≤ 60) (hn1 : 1 ≤ n)
+    (hn : n ≤ 60) :
+    ⌊fl ((j : ℚ) / (n : ℚ))⌋ = j / (n : ℤ) ∧
+    F64Exact ((n : ℚ) * ((j / (n : ℤ) : ℤ) : ℚ)) ∧
+    F64Exact ((j : ℚ) - (n : ℚ) * ((j / (n : ℤ) : ℤ) : ℚ)) ∧
+    fModulo fl (j : ℚ) (n : ℚ) = ((j % (n : ℤ) : ℤ) : ℚ) :=
+  Proofs.CprFloat.modulo_f64exact R j n hj hn1 hn
+
+/-- l.214 `D_LAT_EVEN = 360.0 / (4.0 * NZ)` and l.260, 263-265 `lat_even = D_LAT_EVEN * (j mod 60 + cpr_lat_even)`,
+    `lat_even -= 360.0`: `60`, `6`, the sum, the product and the wrapped value are binary64 values -/
+theorem lat_even_f64exact (r : ℤ) (a : ℕ) (hr : 0 ≤ r ∧ r < 60) (ha : a < 131072) :
+    F64Exact (4 * 15 : ℚ) ∧ F64Exact (360 / 60 : ℚ) ∧
+    F64Exact ((r : ℚ) + (a : ℚ) / 131072) ∧ F64Exact (6 * ((r : ℚ) + (a : ℚ) / 131072)) ∧
+    F64Exact (6 * ((r : ℚ) + (a : ℚ) / 131072) - 360) :=
+  ⟨Proofs.CprFloat.dlat_even_f64exact.1, Proofs.CprFloat.dlat_even_f64exact.2.1,
+    Proofs.CprFloat.lat_even_f64exact r a hr ha⟩
+
+/-- l.291-294 `floor(cpr_lon_even * (nl - 1) as f64 - cpr_lon_odd * nl as f64 + 0.5)`, `nl = k + 1 ∈ 1..59`: both
+    conversions, both products, the difference, the sum and the floor are binary64 values; `-59 ≤ m ≤ 58` -/
+theorem m_f64exact (a b k : ℕ) (ha : a < 131072) (hb : b < 131072) (hk : k + 1 ≤ 59) :
+    F64Exact ((k : ℕ) : ℚ) ∧ F64Exact ((k + 1 : ℕ) : ℚ) ∧
+    F64Exact ((a : ℚ) / 131072 * (k : ℚ)) ∧ F64Exact ((b : ℚ) / 131072 * ((k + 1 : ℕ) : ℚ)) ∧
+    F64Exact ((a : ℚ) / 131072 * (k : ℚ) - (b : ℚ) / 131072 * ((k + 1 : ℕ) : ℚ)) ∧
+    F64Exact ((a : ℚ) / 131072 * (k : ℚ) - (b : ℚ) / 131072 * ((k + 1 : ℕ) : ℚ) + 1 / 2) ∧
+    (-59 ≤ ⌊(a : ℚ) / 131072 * (k : ℚ) - (b : ℚ) / 131072 * ((k + 1 : ℕ) : ℚ) + 1 / 2⌋ ∧
+      ⌊(a : ℚ) / 131072 * (k : ℚ) - (b : ℚ) / 131072 * ((k + 1 : ℕ) : ℚ) + 1 / 2⌋ ≤ 58) ∧
+    F64Exact ((⌊(a : ℚ) / 131072 * (k : ℚ) - (b : ℚ) / 131072 * ((k + 1 : ℕ) : ℚ) + 1 / 2⌋ : ℤ) : ℚ) :=
+  Proofs.CprFloat.m_f64exact a b k ha hb hk
+
+/-- l.290, 296, 298: `ni = max(nl − p, 1) as f64` is a binary64 value, and the second factor of the longitude,
+    `modulo(m, ni) + c`, computed with `fl`, IS the rational model's: a binary64 value in `[0, ni)` -/
+theorem lon_factor_f64exact {fl : ℚ → ℚ} (R : Rounding fl) (e o : Msg) (n p k : ℕ) (he : e.lon < 131072)
+    (ho : o.lon < 131072) (hk : k < 131072) (hn1 : 1 ≤ n) (hn : n ≤ 59) :
+    F64Exact ((max (n - p) 1 : ℕ) : ℚ) ∧
+    fl (fModulo fl (fM fl e o n) (fl ((max (n - p) 1 : ℕ) : ℚ)) + Proofs.CprFloat.fCpr fl k)
+      = modulo (gMn e o n : ℚ) ((max (n - p) 1 : ℕ) : ℚ) + (k : ℚ) / cprMax ∧
+    F64Exact (modulo (gMn e o n : ℚ) ((max (n - p) 1 : ℕ) : ℚ) + (k : ℚ) / cprMax) ∧
+    0 ≤ modulo (gMn e o n : ℚ) ((max (n - p) 1 : ℕ) : ℚ) + (k : ℚ) / cprMax ∧
+    modulo (gMn e o n : ℚ) ((max (n - p) 1 : ℕ) : ℚ) + (k : ℚ) / cprMax < ((max (n - p) 1 : ℕ) : ℚ) :=
+  ⟨(Proofs.CprFloat.ni_f64exact n p hn).1, Proofs.CprFloat.lon_factor_f64exact R e o n p k he ho hk hn1 hn⟩
+
+/-- **The zone indices and `lat_even` are computed exactly.**  Under the rounding hypothesis, for all 17-bit
+    fields: the `f64` computation of `j` (l.258), of `lat_even` including its wrap (l.260-265) and — for every
+    value `n ∈ 1..59` of `nl(lat)` — of `m` (l.291-294) returns exactly the rational model's `gJ`, `gLatE`,
+    `gM` (`gM e o lat = gMn e o (nl lat)`). -/
+theorem zone_indices_f64exact {fl : ℚ → ℚ} (R : Rounding fl) (e o : Msg)
+    (he : e.lat < 131072 ∧ e.lon < 131072) (ho : o.lat < 131072 ∧ o.lon < 131072) :
+    fJ fl e o = gJ e o ∧ fLatE fl e o = gLatE e o ∧
+    (∀ n, 1 ≤ n → n ≤ 59 → fM fl e o n = gMn e o n) ∧ (∀ lat, gM e o lat = gMn e o (nl lat)) :=
+  ⟨Proofs.CprFloat.fJ_eq R e o he.1 ho.1, Proofs.CprFloat.fLatE_eq R e o he.1 ho.1,
+    fun n h1 h2 => Proofs.CprFloat.fM_eq R e o n he.2 ho.2 h1 h2, fun _ => rfl⟩
+
+/-- **`lat_odd` is NOT exact** (`360/59` is rounded, the product is rounded): the computed value is within
+    `10⁻¹²` degrees of the model's before the `>= 270` wrap (`gLatO = wrap270 gLatO0`), within `2·10⁻¹²` after it
+    when the wrap decision is the same, and the decision is the same unless the exact value is within `10⁻¹²`
+    of 270.  (What remains rounding-sensitive downstream: the `[-90, 90]` test and `nl(lat_odd)`, when the exact
+    `lat_odd` is within `2·10⁻¹²` of ±90 or of a transition latitude.) -/
+theorem lat_odd_float_close {fl : ℚ → ℚ} (R : Rounding fl) (e o : Msg) (he : e.lat < 131072)
+    (ho : o.lat < 131072) :
+    |fLatO0 fl e o - gLatO0 e o| ≤ 1 / 10 ^ 12 ∧ gLatO e o = wrap270 (gLatO0 e o) ∧
+    ((fLatO0 fl e o ≥ 270 ↔ gLatO0 e o ≥ 270) → |fLatO fl e o - gLatO e o| ≤ 2 / 10 ^ 12) ∧
+    (1 / 10 ^ 12 < |gLatO0 e o - 270| → (fLatO0 fl e o ≥ 270 ↔ gLatO0 e o ≥ 270)) :=
+  ⟨(Proofs.CprFloat.lat_odd_err R e o he ho).1, rfl,
+    Proofs.CprFloat.lat_odd_wrapped_err R e o he ho⟩
+
+/-- **The longitude is NOT exact** (`360/ni` is rounded, the product is rounded): for all 17-bit fields, every
+    `n = nl(lat) ∈ 1..59`, `p ∈ {0,1}` and field `k` of the latest report, the computed value is within `10⁻¹²`
+    degrees of the model's before the `>= 180` wrap (`gLon = wrap180 gLon0`), within `2·10⁻¹²` after it when the
+    wrap decision is the same (otherwise the two differ by exactly one turn), and the decision is the same
+    unless the exact value is within `10⁻¹²` of 180. -/
+theorem lon_float_close {fl : ℚ → ℚ} (R : Rounding fl) (e o : Msg) (n p k : ℕ) (he : e.lon < 131072)
+    (ho : o.lon < 131072) (hk : k < 131072) (hn1 : 1 ≤ n) (hn : n ≤ 59) :
+    |fLon0 fl e o n p k - gLon0 e o n p k| ≤ 1 / 10 ^ 12 ∧
+    (∀ lat, gLon e o lat p ((k : ℚ) / cprMax) = wrap180 (gLon0 e o (nl lat) p k)) ∧
+    ((fLon0 fl e o n p k ≥ 180 ↔ gLon0 e o n p k ≥ 180) →
+      |fWrap180 fl (fLon0 fl e o n p k) - wrap180 (gLon0 e o n p k)| ≤ 2 / 10 ^ 12) ∧
+    (1 / 10 ^ 12 < |gLon0 e o n p k - 180| → (fLon0 fl e o n p k ≥ 180 ↔ gLon0 e o n p k ≥ 180)) :=
+  ⟨(Proofs.CprFloat.lon_err R e o n p k he ho hk hn1 hn).1, fun _ => rfl,
+    Proofs.CprFloat.lon_wrapped_err R e o n p k he ho hk hn1 hn⟩
+
+/-- the hypotheses are satisfiable, and with `fl = id` the `fl`-expressions are the model's: the first test
+    pair of the repository, `j = 8` -/
+example : fJ id ⟨.even, 39848, 83951⟩ ⟨.odd, 21567, 81965⟩ = 8 ∧ gJ ⟨.even, 39848, 83951⟩ ⟨.odd, 21567, 81965⟩ = 8 := by
+  have h := Proofs.CprFloat.fJ_eq rounding_satisfiable ⟨.even, 39848, 83951⟩ ⟨.odd, 21567, 81965⟩
+    (by decide) (by decide)
+  have : gJ ⟨.even, 39848, 83951⟩ ⟨.odd, 21567, 81965⟩ = 8 := by
+    unfold gJ; rw [Proofs.CprFloat.cprMax_eq, Int.floor_eq_iff]; norm_num
+  exact ⟨h.trans this, this⟩
 
 /-! ### non-vacuity: the repository's own test pairs, and satisfiable hypotheses -/
 
